@@ -25,7 +25,9 @@ ValOk(q, R) ==
 
 \* successor states allowed for a request: the specified one; a refused Drop may or may not have
 \* consumed a handle (the property is silent)
-Succ(q, R) == IF q.op = "Drop" /\ R.res # "ok" THEN {R.st, st} ELSE {R.st}
+Succ(q, R) == IF q.op = "Drop" /\ R.res # "ok" THEN {R.st, st}
+              ELSE IF q.op = "SetPolicy" /\ q.res # "ok" /\ ~IsOpen(st, q.d) THEN {st}     \* a refused request changes nothing
+              ELSE {R.st}
 
 \* ---- subscriber events through the actor (C12) ----
 Writes == {"InsertLocal", "DeletePrefix", "InsertRemote"}
@@ -70,13 +72,17 @@ ReqStep(q) ==
         /\ q.op = "RegisterPeer" => (q.res = "ok") = (R.res = "ok")
         /\ q.op = "GetPeers" => IF q.res = "ok" THEN q.val = st.docs[q.d].peers ELSE ~IsOpen(st, q.d)
   \* C15 through the actor: a policy can be set exactly for a document that exists and is read back unchanged
-  /\ (Prop = "C15" /\ q.op = "SetPolicy") => (q.res = "ok") = (R.res = "ok")
-  /\ (Prop = "C15" /\ q.op = "GetPolicy" /\ st.docs[q.d].cap # "none") => q.res = "ok" /\ q.val = R.val
+  \* (whether these requests ask for an open document is nobody's business: a refusal for a document that is not open is
+  \* accepted and changes nothing; the actor of the pinned tree serves them regardless)
+  /\ (Prop = "C15" /\ q.op = "SetPolicy") => /\ (R.res # "ok" => q.res # "ok")
+                                              /\ ((R.res = "ok" /\ IsOpen(st, q.d)) => q.res = "ok")
+  /\ (Prop = "C15" /\ q.op = "GetPolicy" /\ st.docs[q.d].cap # "none") =>
+        IF q.res = "ok" THEN q.val = R.val ELSE ~IsOpen(st, q.d)
   \* C16 through the actor: no policy of a document that is not there can be observed; the hash list is exact
   /\ (Prop = "C16" /\ q.op = "GetPolicy" /\ st.docs[q.d].cap = "none" /\ q.res = "ok") => q.val = R.val
   /\ (Prop = "C16" /\ q.op = "Hashes") => q.res = "ok" /\ ToSet(q.val[1]) = R.val[1]
   \* C13 through the actor: a report is news exactly for the authors it names with a newer timestamp than any record held
-  /\ (Prop = "C13" /\ q.op = "HasNews") => q.res = "ok" /\ q.val = R.val
+  /\ (Prop = "C13" /\ q.op = "HasNews") => IF q.res = "ok" THEN q.val = R.val ELSE ~IsOpen(st, q.d)
   /\ Prop = "C14" => \/ Silent(st, q)
                      \/ q.op \in {"RegisterPeer", "GetPeers", "SetPolicy", "GetPolicy", "HasNews", "Hashes"}   \* (not C14's subject)
                      \/ /\ (q.res = "ok") = (R.res = "ok")
